@@ -186,8 +186,30 @@ def run(ctx):
              "empty containers (constructors == reference)", floor=3)
     run.rule("C13.R7", "createDerivedSchema copies into the new schema's own "
              "containers (no field aliasing)")
+    run.rule("C13.R9", "the schema-builder code that runs inside a load and "
+             "operates on objects shared with the application schema (the "
+             "implementer table of an abstract type: known finding F8) reads "
+             "and writes that shared state exactly as the reference does -- "
+             "an additional read makes a later load depend on an earlier one",
+             floor=3)
 
     check_sites(ctx, "C13.R1")
+
+    # R9: with F8 open, the implementer table of the application schema's
+    # abstract types carries over from load to load; what the import path
+    # does with it is pinned to the reference
+    BPq = "ZConfig.schema.BaseParser"
+    crosscheck(ctx, "C13.R9", BPq + ".start_sectiontype", "ref_schema.py",
+               "start_sectiontype", BPq,
+               "the shared abstract type is looked up, tested for "
+               "abstractness and given the new implementer -- nothing else "
+               "is read from it")
+    crosscheck(ctx, "C13.R9", INF + ".AbstractType.addsubtype", "ref_info.py",
+               "addsubtype", INF + ".AbstractType",
+               "registration replaces by name (idempotent across loads)")
+    crosscheck(ctx, "C13.R9", INF + ".AbstractType.getsubtype",
+               "ref_matcher.py", "getsubtype", INF + ".AbstractType",
+               "lookup by name only")
 
     # R2
     for q, ref in ((INF + ".KeyInfo.getdefault", "keyinfo_getdefault"),
